@@ -28,8 +28,11 @@ Section Spec.
         if Nat.leb (List.length p) n then [p]
         else firstn n p :: chunks_fuel f n (skipn n p)
     end.
+  (* (rs is capped at the payload length before the conversion to nat, which
+     changes nothing - a record never exceeds the payload - but keeps the
+     function computable for astronomically large rs) *)
   Definition chunks (rs : N) (p : bytes) : list bytes :=
-    chunks_fuel (List.length p) (N.to_nat rs) p.
+    chunks_fuel (List.length p) (N.to_nat (N.min rs (N.of_nat (List.length p)))) p.
 
   Definition records (d : draft) (rs : N) (p : bytes) : list bytes :=
     match p with
